@@ -79,6 +79,23 @@ func vfC10PolygonArea(c int) {
 	vfAssert("polygon-area-outer-minus-holes", 2*a == want)
 }
 
+// two holes whose windings are independent: catalogue outer ring and hole bases, one symbolic vertex per hole
+func vfC10TwoHoles_N(tier int) int     { return 1 }
+func vfC10TwoHoles_Label(c int) string { return "two holes, one symbolic vertex each" }
+
+func vfC10TwoHoles(c int) {
+	outer := []orb.Point{{0, 0}, {10, 0}, {10, 10}, {0, 10}}
+	h1 := []orb.Point{{1, 1}, {3, 1}, vfP2("h1")}
+	h2 := []orb.Point{{6, 6}, {6, 9}, vfP2("h2")}
+	poly := orb.Polygon{vfClosedRing(outer), vfClosedRing(h1), vfClosedRing(h2)}
+	a := Area(poly)
+	vfReach("two-holes")
+	vfAssert("two-holes-area-outer-minus-holes", 2*a == vfAbs(vfShoelace2(outer))-vfAbs(vfShoelace2(h1))-vfAbs(vfShoelace2(h2)))
+	// the other order of the holes gives the same area
+	poly2 := orb.Polygon{vfClosedRing(outer), vfClosedRing(h2), vfClosedRing(h1)}
+	vfAssert("two-holes-order-independent", Area(poly2) == a)
+}
+
 func vfC10Sums_N(tier int) int     { return 2 + tier }
 func vfC10Sums_Label(c int) string { return []string{"collection-mixed", "collection-lines", "multipolygon"}[c] }
 
